@@ -317,7 +317,7 @@ Qed.
 Lemma step_inv t e : inv t -> inv (fst (step t e)).
 Proof.
   intros Hi. pose proof Hi as (Hl & Hh).
-  destruct e as [m cf re f o|n|pos wh| | | |x| | |o|cf f o|p|x|via j x|cf f x]; cbn [step].
+  destruct e as [m cf re f o|n|pos wh| | | |x| | |o|cf f o|p|x|via j x|cf f x| |m cf p|m]; cbn [step].
   - apply do_open_inv; [reflexivity | exact Hi].
   - unfold on_reader. destruct (st_h t) as [h|] eqn:Eh; [|exact Hi]. destruct (is_r (h_mode h)); [|exact Hi].
     pose proof (do_read_points_ok n h (st_s t) Hh) as (Hok & _).
@@ -365,6 +365,9 @@ Proof.
         unfold do_open in *. rewrite Eh in *. rewrite gen_pre_assert_r in *. cbn [andb] in *. rewrite Ec in *.
         cbn [fst st_h] in *. exact Hopen.
       * pose proof (read_las_fault_facts cf f x t Hi Eh Ec) as (Ha & _). cbn [step] in Ha. rewrite Eh in Ha. exact Ha.
+  - unfold on_handle. destruct (st_h t) as [h|] eqn:Eh; [|exact Hi]. cbn [fst]. split; [exact Hl | exact I].
+  - destruct (st_h t) as [h|] eqn:Eh; cbn [fst]; [exact Hi | split; [exact Hl | exact I]].
+  - destruct (st_h t) as [h|] eqn:Eh; cbn [fst]; exact Hi.
 Qed.
 
 Lemma run_inv evs : forall t, inv t -> inv (run t evs).
@@ -897,4 +900,144 @@ Theorem ends_do_not_raise t h : st_h t = Some h ->
 Proof.
   intros Eh. cbn [step]. unfold on_handle. rewrite Eh. cbn [snd]. unfold end_res.
   rewrite close_never_raises_by_itself, gen_exit_closes_all. cbn. repeat split.
+Qed.
+
+(* ---------------- a handle that is only dropped; a stream laspy was never told to close ---------------- *)
+(* the caller lets go of the handle without close() and without a with statement: the stream is as it was (closed or not,
+   where it stood), whatever closefd is and whether the reader had created its point source; the log gets no entry *)
+Theorem drop_leaves_stream t h : st_h t = Some h -> step t EDrop = (mkSt (st_s t) None (st_log t), RDone).
+Proof. intros Eh. cbn [step]. unfold on_handle. rewrite Eh. reflexivity. Qed.
+
+Theorem drop_after_any_history c p evs :
+  st_s (run (init_at c p) (evs ++ [EDrop])) = st_s (run (init_at c p) evs)
+  /\ st_h (run (init_at c p) (evs ++ [EDrop])) = None
+  /\ st_log (run (init_at c p) (evs ++ [EDrop])) = st_log (run (init_at c p) evs).
+Proof.
+  rewrite run_snoc. cbn [step]. unfold on_handle.
+  destruct (st_h (run (init_at c p) evs)) as [h|] eqn:Eh; cbn [fst st_s st_h st_log]; repeat split. exact Eh.
+Qed.
+
+(* ---------------- a second close ---------------- *)
+(* closing never re-opens *)
+Lemma reclose_monotone m cf p s : s_closed s = true -> s_closed (reclose m cf p s) = true.
+Proof. intros H. unfold reclose. rewrite fold_acts_closed, H. reflexivity. Qed.
+
+(* the close method of an object that was given closefd=False closes nothing, the second time either *)
+Lemma reclose_unasked m p s : s_closed (reclose m false p s) = s_closed s.
+Proof. unfold reclose. destruct m, p as [|b|b]; reflexivity. Qed.
+
+Theorem reclose_keeps_unasked t m p : st_h t = None ->
+  s_closed (st_s (fst (step t (EReclose m false p)))) = s_closed (st_s t).
+Proof. intros Eh. cbn [step]. rewrite Eh. cbn [fst st_s]. apply reclose_unasked. Qed.
+
+(* the second close of an appender does nothing at all (its flag is set), and has no statement that could fail *)
+Theorem appender_reclose_noop t cf p : st_h t = None ->
+  step t (EReclose MA cf p) = (t, RDone) /\ forall hp ss, gen_close_appender_again_faults cf hp ss = [].
+Proof.
+  intros Eh. split; [|reflexivity]. cbn [step]. rewrite Eh. destruct t as [s h l]. cbn in Eh. subst h. reflexivity.
+Qed.
+
+(* points given to a closed appender are refused with a LaspyException, nothing happens *)
+Theorem closed_appender_refuses t : st_h t = None -> step t (EUseClosed MA) = (t, RRaised XLaspy).
+Proof. intros Eh. cbn [step]. rewrite Eh. reflexivity. Qed.
+
+(* any history, an end of the session (exit, close(), the with-body raising), then close() / a with-exit once more on the same
+   object: the stream is still closed iff the caller said closefd *)
+Theorem close_twice c p evs e h : is_end e = true -> st_h (run (init_at c p) evs) = Some h ->
+  let t1 := fst (step (run (init_at c p) evs) e) in
+  s_closed (st_s (fst (step t1 (EReclose (h_mode h) (h_declared h) (h_ps h))))) = h_declared h.
+Proof.
+  intros He Eh t1. destruct (handle_gone c p evs e h He Eh) as (A & B & _). fold t1 in A, B.
+  cbn [step]. rewrite A. cbn [fst st_s].
+  destruct (h_declared h) eqn:Ed; [apply reclose_monotone; exact B | rewrite reclose_unasked; exact B].
+Qed.
+
+(* events that never ask laspy to close: every open / laspy.read says closefd=False (LasData.write never closes) *)
+Definition asks_no_close (e : event) : bool :=
+  match e with
+  | EOpen _ cf _ _ _ => negb cf
+  | EReadLas cf _ _ => negb cf
+  | EReadLasFault cf _ _ => negb cf
+  | EReclose _ cf _ => negb cf
+  | _ => true
+  end.
+
+Definition kept_open (t : st) : Prop :=
+  inv0 t /\ s_closed (st_s t) = false /\ match st_h t with Some h => h_declared h = false | None => True end.
+
+Lemma kept_open_step t e : kept_open t -> asks_no_close e = true -> kept_open (fst (step t e)).
+Proof.
+  intros (Hi & Hc & Hd) Ha.
+  split; [exact (step_inv false loose t e Hi)|].
+  pose proof Hi as (Hl & Hh).
+  destruct e as [m cf re f o|n|pos wh| | | |x| | |o|cf f o|p|x|via j x|cf f x| |m cf p|m]; cbn [step].
+  - cbn in Ha. destruct cf; [discriminate|]. unfold do_open.
+    destruct (st_h t) as [h|] eqn:Eh; [cbn [fst st_s st_h]; rewrite Eh; split; assumption|].
+    destruct (gen_open_pre_assert_seekable m && (s_closed (st_s t) || negb (s_seekable (st_s t)))); [cbn; split; [exact Hc | exact I]|].
+    rewrite Hc.
+    destruct (is_a m && negb (s_seekable (st_s t))); [cbn [fst st_s st_h]; split; [apply handle_exn_closed; exact Hc | exact I]|].
+    destruct (open_exn m o f re (s_cap (st_s t))) as [x|]; [cbn [fst st_s st_h]; split; [apply handle_exn_closed; exact Hc | exact I]|].
+    cbn [fst st_s st_h h_declared]. split; [destruct (is_r m); [cbn; exact Hc | exact Hc] | reflexivity].
+  - unfold on_reader. destruct (st_h t) as [h|] eqn:Eh; [|cbn [fst]; rewrite Eh; split; assumption].
+    destruct (is_r (h_mode h)); [|cbn [fst]; rewrite Eh; split; assumption].
+    pose proof (do_read_points_ok n h (st_s t) Hh) as ((Hc' & _) & (_ & _ & Sd & _)).
+    destruct (do_read_points n h (st_s t)) as [[h' s'] r]. cbn [fst snd upd st_s st_h] in *. split; [exact Hc' | rewrite Sd; exact Hd].
+  - unfold on_reader. destruct (st_h t) as [h|] eqn:Eh; [|cbn [fst]; rewrite Eh; split; assumption].
+    destruct (is_r (h_mode h)); [|cbn [fst]; rewrite Eh; split; assumption].
+    pose proof (do_seek_ok pos wh h (st_s t) Hh) as ((Hc' & _) & (_ & _ & Sd & _)).
+    destruct (do_seek pos wh h (st_s t)) as [[h' s'] r]. cbn [fst snd upd st_s st_h] in *. split; [exact Hc' | rewrite Sd; exact Hd].
+  - unfold on_reader. destruct (st_h t) as [h|] eqn:Eh; [|cbn [fst]; rewrite Eh; split; assumption].
+    destruct (is_r (h_mode h)); [|cbn [fst]; rewrite Eh; split; assumption].
+    pose proof (do_read_all_ok h (st_s t) Hh) as ((Hc' & _) & (_ & _ & Sd & _)).
+    destruct (do_read_all h (st_s t)) as [[h' s'] r]. cbn [fst snd upd st_s st_h] in *. split; [exact Hc' | rewrite Sd; exact Hd].
+  - unfold on_reader. destruct (st_h t) as [h|] eqn:Eh; [|cbn [fst]; rewrite Eh; split; assumption].
+    destruct (is_r (h_mode h)); [|cbn [fst]; rewrite Eh; split; assumption].
+    destruct (ensure_ps h) as [p1|x1]; cbn [fst upd st_s st_h set_ps h_declared]; [split; assumption | rewrite Eh; split; assumption].
+  - unfold on_handle. destruct (st_h t) as [h|] eqn:Eh; [|cbn [fst]; rewrite Eh; split; assumption].
+    destruct (is_r (h_mode h)); cbn [fst]; rewrite Eh; split; assumption.
+  - unfold on_handle. destruct (st_h t) as [h|] eqn:Eh; [|cbn [fst]; rewrite Eh; split; assumption]. cbn [fst].
+    pose proof (end_handle_facts false loose HBodyRaised true t h ltac:(discriminate) Hi Eh) as (_ & A & B).
+    rewrite A, B. split; [exact Hd | exact I].
+  - unfold on_handle. destruct (st_h t) as [h|] eqn:Eh; [|cbn [fst]; rewrite Eh; split; assumption]. cbn [fst].
+    pose proof (end_handle_facts false loose HExit true t h ltac:(discriminate) Hi Eh) as (_ & A & B).
+    rewrite A, B. split; [exact Hd | exact I].
+  - unfold on_handle. destruct (st_h t) as [h|] eqn:Eh; [|cbn [fst]; rewrite Eh; split; assumption]. cbn [fst].
+    pose proof (end_handle_facts false loose HClose false t h ltac:(discriminate) Hi Eh) as (_ & A & B).
+    rewrite A, B. split; [exact Hd | exact I].
+  - destruct (lasdata_write_stream o t) as (A & B). rewrite A, B. split; assumption.
+  - cbn in Ha. destruct cf; [discriminate|].
+    destruct (st_h t) as [h|] eqn:Eh; [cbn [fst]; rewrite Eh; split; assumption|].
+    pose proof (read_las_facts false loose false f o t Hi Eh Hc) as (_ & A & B). cbn [step] in A, B. rewrite Eh in A, B.
+    rewrite A, B. split; [reflexivity | exact I].
+  - destruct (s_closed (st_s t) || negb (s_seekable (st_s t))); cbn [fst st_s st_h set_pos s_closed]; split; assumption.
+  - unfold on_handle. destruct (st_h t) as [h|] eqn:Eh; [|cbn [fst]; rewrite Eh; split; assumption]. cbn [fst upd st_s st_h].
+    split; [exact Hc|]. destruct (op_fault_ok h (st_s t) Hh) as (_ & (_ & _ & Sd & _)). rewrite Sd. exact Hd.
+  - unfold on_handle. destruct (st_h t) as [h|] eqn:Eh; [|cbn [fst]; rewrite Eh; split; assumption].
+    destruct (end_handle_fault via j t h) as [t'|] eqn:Ef; cbn [fst]; [|cbn [fst]; rewrite Eh; split; assumption].
+    pose proof (end_handle_fault_facts false loose via j t h t' Hi Eh Ef) as (_ & A & B & _).
+    rewrite A. split; [exact (B Hd) | exact I].
+  - cbn in Ha. destruct cf; [discriminate|].
+    destruct (st_h t) as [h|] eqn:Eh; [cbn [fst]; rewrite Eh; split; assumption|].
+    pose proof (read_las_fault_facts false loose false f x t Hi Eh Hc) as (_ & A & B). cbn [step] in A, B. rewrite Eh in A, B.
+    rewrite A, B. split; [reflexivity | exact I].
+  - unfold on_handle. destruct (st_h t) as [h|] eqn:Eh; [|cbn [fst]; rewrite Eh; split; assumption]. cbn [fst st_s st_h]. split; [exact Hc | exact I].
+  - cbn in Ha. destruct cf; [discriminate|].
+    destruct (st_h t) as [h|] eqn:Eh; [cbn [fst]; rewrite Eh; split; assumption|].
+    cbn [fst st_s st_h]. split; [rewrite reclose_unasked; exact Hc | exact I].
+  - destruct (st_h t) as [h|] eqn:Eh; cbn [fst]; rewrite Eh; split; assumption.
+Qed.
+
+(* the "only if" half at EVERY moment, not only when laspy lets go: in a history in which laspy is never told to close
+   (closefd=False at every open and every laspy.read; LasData.write; reads, seeks, writes, failures of the stream, failing
+   close methods, handles that are closed, left by an exception or only dropped) the caller's stream is never closed *)
+Theorem never_told_never_closed c p evs : forallb asks_no_close evs = true ->
+  s_closed (st_s (run (init_at c p) evs)) = false.
+Proof.
+  intros Ha.
+  assert (H : forall evs t, kept_open t -> forallb asks_no_close evs = true -> kept_open (run t evs)).
+  { clear. induction evs as [|e r IH]; intros t Hk Ha; [exact Hk|].
+    cbn [forallb] in Ha. apply andb_true_iff in Ha. destruct Ha as (Ha & Hr).
+    cbn [run fold_left]. apply IH; [apply kept_open_step; assumption | exact Hr]. }
+  assert (H0 : kept_open (init_at c p)) by (split; [apply init_at_inv0 | split; [reflexivity | exact I]]).
+  exact (proj1 (proj2 (H evs _ H0 Ha))).
 Qed.
